@@ -216,3 +216,16 @@ CHECKS["C07"] = {
     "trusted": ["std HashMap as association list", "scopes/cleanups abstracted to create/dispose events; the reactive wrapping create_memo(on(list, || scope.run_in(update))) is exercised by the harness but not part of this model (see C01/C04)"],
     "assumptions": ["unique keys in the old and the new list (the property's premise) for the map_keyed claims"],
 }
+
+# C01/C02: static-graph consistency theorem delivered by Lemmas/Propagate.lean + Props/C01Static.lean
+_static = [RX + n for n in ["C01_static_set", "C01_static_set_exists", "C01_static_execSet", "C01_static_runClosure",
+                            "C01_static_runNodeUpdate", "C01_static_schedule", "dfs_total", "C01_static_loop", "staticDemo_arena"]]
+CHECKS["C01"]["lean_modules"] = ["SycVerif.Props.C01", "SycVerif.Props.C01Static"]
+CHECKS["C01"]["theorems"] += _static
+CHECKS["C01"]["manifest_text"] = ("Lean model of the whole propagation machinery (propagate_node_updates, dfs, run_node_update, mark_dependents_dirty, create_dependency_link, dispose, batch) executing closure programs of a DSL. POSITIVE: for every arena of signals and branch-free computations (static dependency graphs of any shape and size, memos, selectors with coarse equality, effects) that is consistent at rest, every write propagates successfully (explicit fuel bound) to a state that is again consistent at rest — every computation holds what its function yields from the current values, nothing dirty, all marks reset, signals untouched, each computation ran at most once (C01_static_set, with the loop invariant C01_static_loop and the schedule theorem C01_static_schedule: the buffer is exactly the set reachable through dependents, duplicate-free, topologically ordered). NEGATIVE: the full-strength statement C01_full (graphs whose edges change during the propagation) is PROVED FALSE of the model by kernel evaluation of the late-edge witness (known finding D1), which the check replays on the real code. Model tied to /repo by comparing, after every operation of tens of thousands of generated programs, values/liveness/run traces/edge counts with the real sycamore-reactive; the real code is additionally judged by a from-scratch reference evaluation.")
+CHECKS["C01"]["manifest_note"] = "Partial: proved for static graphs (branch-free bodies); for bodies with conditional reads the statement is false in general (D1) and the NoLateEdge generalisation is not yet proved; bodies that create/dispose nodes or write signals are covered by the correspondence and the oracle only. Known finding D1 is reported as KNOWN-FINDING, any other staleness is a violation."
+CHECKS["C01"]["status"] = "C01_full false (D1 witness); C01 proved for all static dependency graphs (C01_static_set); dynamic graphs under NoLateEdge: not proved"
+CHECKS["C01"]["partial"] = [{"theorem": "C01_partial (NoLateEdge)", "missing": "consistency for computations with conditional reads whose newly tracked dependencies are not pending; today only by the oracle"}]
+CHECKS["C02"]["lean_modules"] = ["SycVerif.Props.C02", "SycVerif.Props.C01Static"]
+CHECKS["C02"]["theorems"] += _static
+CHECKS["C02"]["status"] = "schedule theorems for all arenas; for static dependency graphs the full clause set follows from C01_static_set/C01_static_loop (each computation at most once, every run reads consistent values because the loop invariant keeps all non-pending computations consistent, a run happens only for dirty = notified nodes); dynamic graphs: clause (i) false for late edges (D1)"
